@@ -328,7 +328,7 @@ def main(replay=None):
     bdir, hb = ck.prepare("Props/Properties_C12.v", "h_c12.cpp")
     if hb is None:
         return ck.finish()
-    cases = []; kinds = []
+    cases = []; kinds = []; scaled_of = {}
     if replay:
         rp = json.load(open(replay)); cases = rp.get("cases", []); kinds = rp.get("kinds", ["replay"] * len(cases))
     else:
@@ -338,6 +338,13 @@ def main(replay=None):
                 if l.strip() and not l.startswith("#"): cases.append(l.strip()); kinds.append("corpus")
         for _ in range(20000 if quick else 200000):
             k, c = gen_pair(ck.rng); cases.append(c); kinds.append(k)
+            # uniformly scaled copies (powers of two, exact): the exact verdict is scale invariant (exact_verdict_scale_invariant),
+            # absolute thresholds in the predicate are not
+            if ck.rng.random() < 0.3:
+                w = c.split(); den = int(w[2]); sc = ck.rng.choice([-13, -10, 10])
+                if sc < 0: c2 = " ".join(w[:2] + [str(den * 2 ** (-sc))] + w[3:])
+                else: c2 = " ".join(w[:3] + [str(int(x) * 2 ** sc) for x in w[3:]])
+                cases.append(c2); kinds.append("scaled2^%d:%s" % (sc, k)); scaled_of[c2] = c
         for _ in range(600 if quick else 6000):
             cases.append(gen_soup(ck.rng)); kinds.append("soup-self")
         for _ in range(400 if quick else 4000):
@@ -347,6 +354,7 @@ def main(replay=None):
     rc, io, err = core.run_harness(hb, cases, ck.workdir)
     dist = {}; stats = dict(pairs=0, oracle_checked=0, oracle_noclear=0, isect_true=0, self_true=0, pair_true=0, mism=0)
     crossing_seen = None
+    impl_of = {c_: ([int(x) for x in i_.split()] if not i_.startswith("CRASH") else [-9]) for c_, i_ in zip(cases, io) if c_.split()[1] == "20"}
     for c, k, m, i in zip(cases, kinds, mo, io):
         dist[k] = dist.get(k, 0) + 1
         op = int(c.split()[1])
@@ -359,6 +367,12 @@ def main(replay=None):
                 ck.violation("Triangle::intersects: decision tree model and implementation differ",
                              "Triangle::intersects returns %s where the transcribed decision tree gives %s on the dyadic pair `%s` (all products exact in double)" % (iz[1:], mz[1:2], c),
                              dict(kind="correspondence", cases=[c], kinds=[k], model=[m], impl=[i]))
+            if c in scaled_of and len(mz) > 2 and mz[2] != 2:
+                stats["scaled_checked"] = stats.get("scaled_checked", 0) + 1
+                base_impl = impl_of.get(scaled_of[c])
+                if base_impl is not None and base_impl[:2] != iz[:2]:
+                    ck.violation("Triangle::intersects: not scale invariant", "Triangle::intersects answers %s on `%s` and %s on its uniformly scaled copy `%s` (pair in generic position)" % (base_impl[1:2], scaled_of[c], iz[1:2], c),
+                                 dict(kind="property", cases=[scaled_of[c], c], kinds=[k, k]))
             if len(mz) > 2 and mz[2] != 2:
                 stats["oracle_checked"] += 1
                 if iz[:2] != [0, mz[2]]:
@@ -542,7 +556,7 @@ def main(replay=None):
     ck.cov.update(evaluations=len(cases) + len(gstats), distinct_nontrivial=len(set(cases)) + len(gstats),
                   rule="distinct case lines; triangle pairs aimed at the branches of the decision tree (plane rejections, canonical permutations, coplanar fallback with its three projections, touching configurations); soups for the loops; generated clean/damaged head models",
                   samples=cases[len(cases) // 2:len(cases) // 2 + 2], op_distribution=dist, triangle_pairs=stats["pairs"],
-                  pairs_intersecting=stats["isect_true"], oracle_checked=stats["oracle_checked"], oracle_no_clearance=stats["oracle_noclear"],
+                  pairs_intersecting=stats["isect_true"], oracle_checked=stats["oracle_checked"], scaled_copies_checked=stats.get("scaled_checked", 0), oracle_no_clearance=stats["oracle_noclear"],
                   soups_self_intersecting=stats["self_true"], soup_pairs_intersecting=stats["pair_true"],
                   correspondence_mismatches=stats["mism"], geometry_models=gstats, near_coplanar_pairs=nc, thread_count_runs=tstats, contains_cases=cs, traces_validated_against_impl=len(cases) + len(gstats))
     ck.cov["trusted_base"] += ["hand-written Gallina models coq/Geom/{TriTri,Checks}.v tied by exact differential runs (harness/h_c12.cpp vs extracted extract/omm)",
